@@ -39,7 +39,7 @@ def objsOr (pfx : String) (l : List RHost) : String :=
   addu <obj>                           addOrUpdate → "<stored obj>" + snapshot
   rm <id>                              removeHost → "<found>" + snapshot
   get <id> | byip <addr> | all         getHost / getHostByIP / allHosts
-  refresh <filtered objs|-> <objs|->   the diff loop of refreshRing on the reported objects → result + effects + snapshot
+  refresh <filtered objs|-> <objs|->   the diff part of refreshRing (repaired) on the reported objects → "ok" + effects + snapshot
   consistent | chk                     `Ring.notFound`: hosts of the ring not found by id and by address → "ok" | "notfound:<objs>"
                                        (`consistent` is emitted only after histories satisfying `C16.HGuarded`, where the answer is PROVED "ok")
   nostale <n>                          `Ring.staleAddrs n`: addresses 0..n with a stale by-address entry → "ok" | "stale:<addrs>"
@@ -68,9 +68,8 @@ def step (s : St) (ws : List String) : St × String :=
   | ["all"] => (s, join ((sortKeys (s.r.allHosts.map (fun h => (h.obj, ())))).map (fun e => toString e.1)))
   | ["refresh", fl, rep] =>
     let f := natList fl
-    let (r', res, eff) := s.r.refresh (fun h => f.contains h.obj) ((natList rep).filterMap s.obj?)
-    ({ s with r := r' }, (match res with | .ok => "ok" | .errCannotFind => "err:cannot-find-host" | .errAlreadyExists => "err:host-already-exists")
-      ++ " filled=" ++ join (eff.filled.map (fun h => toString h.obj))
+    let (r', eff) := s.r.refresh (fun h => f.contains h.obj) ((natList rep).filterMap s.obj?)
+    ({ s with r := r' }, "ok filled=" ++ join (eff.filled.map (fun h => toString h.obj))
       ++ " removed=" ++ join ((sortKeys (eff.removed.map (fun h => (h.obj, ())))).map (fun e => toString e.1))
       ++ " " ++ snapshot r')
   | ["nostale", n] => let l := s.r.staleAddrs (nat n)
